@@ -1624,13 +1624,19 @@ def main(tier, replay=None):
         "trial-division macros and primorials from the current source text (it refuses, and the check reports, any shape it does not recognise); "
         "validated on every run by the exhaustive correspondence run of the extracted model against the compiled code",
         "GMP: mpz_probab_prime_p (primality above 65536), mpz_root, mpz_nextprime are oracles of the model; in the model driver they are the same GMP functions through Zarith",
-        "Pollard rho / Lenstra ECM random walks are oracles of the model (their results are replayed); what they return is checked per case against the specification oracle",
+        "Pollard's rho walk is INSIDE the model (ModelScript.v) for the scripted call forms: only the random start values are inputs; for the unscripted call forms and for Lenstra's curves "
+        "the random-walk answers are oracles of the model (replayed); what they return is checked per case against the specification oracle",
+        "harness/c12_prime.C specialises the member template IntegerDom::random / nonzerorandom for its own iterator type ScriptRand (the library code is compiled unchanged): "
+        "this is how IntFactorDom<ScriptRand> and Miller<ScriptRand> read their random numbers from the input line; checks/C12.py rho_sim / fixed_point_start only CHOOSE the scripts",
         "extraction: ExtrOcamlBasic only; Z/positive/nat kept as extracted inductives; OCaml 4.13.1",
         "harness/c12_prime.C, checks/C12.py (case generators; python oracle: sieve, deterministic Miller-Rabin bases 2..41 and more, re-multiplication, brute-force divisors)",
         "g++ / x86-64 / GMP for the implementation side",
     ]
-    chk.assumptions = ["primality of n >= 65536 is delegated by the code to GMP; agreement with deterministic Miller-Rabin on 64-bit n is TESTED (structured inputs), not proved",
-                       "factor/iffactorprime/primefactor/set/write/divisors/isprimepower: hand model after the code, tied by correspondence; their specification is checked per generated case by the python oracle"]
+    chk.assumptions = ["primality of n >= 65536 is delegated by the code to GMP; agreement with deterministic Miller-Rabin on 64-bit n is TESTED (structured inputs), not proved "
+                       "(theorem C12_isprime_exact_for_all_n_given_gmp is conditional on exactly this)",
+                       "factor/Pollard/iffactorprime/primefactor/set/write/divisors/isprimepower/Erathostene/Miller/pepin: hand model after the code, tied by correspondence "
+                       "(deterministic on the scripted random walks); their specification is also checked per generated case by the python oracle",
+                       "termination of Pollard's random walk is not a theorem (probabilistic algorithm): the statements are 'whenever it returns'"]
     import time as _t
     stage = {}
     t0 = _t.time()
